@@ -432,4 +432,407 @@ example : ∃ s' out, execute exHooked 11 "adm" exUpdate = .ok (s', out) ∧ s'.
 example : (run exState [⟨10, "adm", .addHook ⟨true, "h1"⟩⟩, ⟨11, "adm", .addHook ⟨true, "h1"⟩⟩]).hooks.Nodup :=
   reachable_hooks_nodup (msg := exInst) (h0 := 10) rfl _
 
+/-! # History-level theorems and literal readings of "truthful" (review round) -/
+
+/-! ## `UpdateMembers` taken apart -/
+
+/-- `execute_update_members` = `update_members` + one message with its diffs per registered hook. -/
+theorem execute_updateMembers_ok {s s' : State} {h : Nat} {snd : Addr} {rem : List AddrArg}
+    {add : List (AddrArg × Nat)} {out : List Out} :
+    execute s h snd (.updateMembers rem add) = .ok (s', out) ↔
+      ∃ diffs, updateMembers s h snd rem add = .ok (s', diffs) ∧ out = s.hooks.map (hookMsg diffs) := by
+  simp only [execute, execUpdateMembers, Res.bind_ok, Res.pure_ok]
+  constructor
+  · rintro ⟨⟨r, ds⟩, hr, e⟩
+    cases e
+    exact ⟨ds, hr, rfl⟩
+  · rintro ⟨ds, hr, rfl⟩
+    exact ⟨(s', ds), hr, rfl⟩
+
+/-- The two loops of a successful `update_members`. -/
+theorem updateMembers_ok {s s' : State} {h : Nat} {snd : Addr} {rem : List AddrArg} {add : List (AddrArg × Nat)}
+    {diffs : List Diff} (hr : updateMembers s h snd rem add = .ok (s', diffs)) :
+    ∃ t0 m1 t1 d1 m2 t2 d2, applyAdds h (sortMembers add) s.members t0 = .ok (m1, t1, d1) ∧
+      applyRemoves h rem m1 t1 = .ok (m2, t2, d2) ∧ s'.members = m2 ∧ diffs = d1 ++ d2 ∧
+      s'.hooks = s.hooks ∧ s'.admin = s.admin := by
+  unfold updateMembers at hr
+  simp only [check_bind_ok] at hr
+  obtain ⟨_, _, hr⟩ := hr
+  split at hr
+  · cases hr
+  · rename_i t0 _
+    simp at hr
+    obtain ⟨m1, t1, d1, h1, m2, t2, d2, h2, rfl, rfl⟩ := hr
+    exact ⟨t0, m1, t1, d1, m2, t2, d2, h1, h2, rfl, rfl, rfl, rfl⟩
+
+/-- The diffs of `update_members` replay the old member table into the new one (the core of
+`diffs_truthful`, stated for the diffs themselves — also when no hook is registered). -/
+theorem updateMembers_replay {s s' : State} {h : Nat} {snd : Addr} {rem : List AddrArg} {add : List (AddrArg × Nat)}
+    {diffs : List Diff} (hr : updateMembers s h snd rem add = .ok (s', diffs)) :
+    replayDiffs s.members.cur diffs = some s'.members.cur := by
+  obtain ⟨t0, m1, t1, d1, m2, t2, d2, h1, h2, hm, rfl, _, _⟩ := updateMembers_ok hr
+  obtain ⟨a1, _, _⟩ := applyAdds_replay _ h1
+  obtain ⟨r1, _⟩ := applyRemoves_replay _ h2
+  rw [replayDiffs_append, a1, hm]; exact r1
+
+/-! ## Literal reading: the first / last / only diff naming an address -/
+
+theorem replayDiffs_split {m m' : AMap Addr Nat} {pre post : List Diff}
+    (hr : replayDiffs m (pre ++ post) = some m') :
+    ∃ m1, replayDiffs m pre = some m1 ∧ replayDiffs m1 post = some m' := by
+  rw [replayDiffs_append] at hr
+  cases h1 : replayDiffs m pre with
+  | none => rw [h1] at hr; cases hr
+  | some m1 => rw [h1] at hr; exact ⟨m1, rfl, hr⟩
+
+/-- In a list of diffs that replays `m` into `m'`: the **first** diff naming an address reports as `old` the
+weight in `m`, the **last** one reports as `new` the weight in `m'`. -/
+theorem replayDiffs_first_last {m m' : AMap Addr Nat} {pre post : List Diff} {d : Diff}
+    (hr : replayDiffs m (pre ++ d :: post) = some m') :
+    (d.key ∉ pre.map (·.key) → d.old = m.get? d.key) ∧
+    (d.key ∉ post.map (·.key) → d.new = m'.get? d.key) := by
+  obtain ⟨m1, h1, h2⟩ := replayDiffs_split hr
+  simp only [replayDiffs] at h2
+  split at h2
+  · rename_i hold
+    constructor
+    · intro hf
+      rw [← hold, replayDiffs_untouched h1 hf]
+    · intro hl
+      rw [replayDiffs_untouched h2 hl]
+      unfold applyDiff
+      split
+      · rename_i w hw; rw [hw]; simp
+      · rename_i hw; rw [hw]; simp
+  · cases h2
+
+/-- **C14 `diffs_truthful`, literal form ("their true previous and new weight")**: in the diffs of a
+successful `UpdateMembers`, for every entry `d`: if no earlier entry names the same address, `d.old` is the
+address's weight before the call; if no later entry names it, `d.new` is its weight after the call.  In
+particular an address named exactly once (the normal case: not both in `add` and `remove`) is reported as
+`(address, weight before, weight after)`. -/
+theorem diffs_first_last {s s' : State} {h : Nat} {snd : Addr} {rem : List AddrArg} {add : List (AddrArg × Nat)}
+    {diffs : List Diff} (hr : updateMembers s h snd rem add = .ok (s', diffs))
+    {pre post : List Diff} {d : Diff} (hd : diffs = pre ++ d :: post) :
+    (d.key ∉ pre.map (·.key) → d.old = weight s d.key) ∧
+    (d.key ∉ post.map (·.key) → d.new = weight s' d.key) := by
+  have := updateMembers_replay hr
+  rw [hd] at this
+  exact replayDiffs_first_last this
+
+/-! ## Every removed member is reported -/
+
+theorem snap_get?_write (m : SnapMap Addr Nat) (k k' : Addr) (h : Nat) (new : Option Nat) :
+    (m.write k h new).get? k' = if k = k' then new else m.get? k' := by
+  unfold SnapMap.write SnapMap.get?
+  cases new with
+  | none => simp [AMap.get?_erase]
+  | some v => simp [AMap.get?_set]
+
+/-- The remove loop reports every listed address that is a member when the loop starts. -/
+theorem applyRemoves_reports {h : Nat} (l : List AddrArg) {m m' : SnapMap Addr Nat} {t t' : Nat} {ds : List Diff}
+    (hc : applyRemoves h l m t = .ok (m', t', ds)) {a : Addr} (ha : a ∈ l.map (·.text)) {w : Nat}
+    (hw : m.get? a = some w) : ⟨a, some w, none⟩ ∈ ds := by
+  induction l generalizing m t m' t' ds with
+  | nil => cases ha
+  | cons b rest ih =>
+    simp only [applyRemoves, check_bind_ok] at hc
+    obtain ⟨_, hc⟩ := hc
+    split at hc
+    · rename_i hb
+      have hne : b.text ≠ a := by intro e; rw [e, hw] at hb; cases hb
+      have ha' : a ∈ rest.map (·.text) := by
+        simp only [List.map_cons, List.mem_cons] at ha
+        rcases ha with e | ha
+        · exact absurd e.symm hne
+        · exact ha
+      exact ih hc ha' hw
+    · rename_i w' hb
+      simp at hc
+      obtain ⟨_, r, t2, d2, hrr, rfl, _, rfl⟩ := hc
+      by_cases e : b.text = a
+      · rw [e, hw] at hb
+        cases hb
+        rw [e]; simp
+      · have ha' : a ∈ rest.map (·.text) := by
+          simp only [List.map_cons, List.mem_cons] at ha
+          rcases ha with e' | ha
+          · exact absurd e'.symm e
+          · exact ha
+        have hw' : (m.write b.text h none).get? a = some w := by rw [snap_get?_write]; simp [e, hw]
+        exact List.mem_cons_of_mem _ (ih hrr ha' hw')
+
+/-- **C14, every removal is reported**: when a successful `UpdateMembers` names in `remove` an address that
+is a member and is not also in `add`, the diffs contain the entry `(address, its weight, none)` — and since
+the address is named by the remove loop only, that weight is its weight before the call. -/
+theorem removed_reported {s s' : State} {h : Nat} {snd : Addr} {rem : List AddrArg} {add : List (AddrArg × Nat)}
+    {diffs : List Diff} (hr : updateMembers s h snd rem add = .ok (s', diffs))
+    {a : Addr} (ha : a ∈ rem.map (·.text)) (hna : a ∉ add.map (·.1.text)) {w : Nat} (hw : weight s a = some w) :
+    ⟨a, some w, none⟩ ∈ diffs := by
+  obtain ⟨t0, m1, t1, d1, m2, t2, d2, h1, h2, _, rfl, _, _⟩ := updateMembers_ok hr
+  obtain ⟨a1, a2, _⟩ := applyAdds_replay _ h1
+  have hperm : a ∈ (sortMembers add).map (·.1.text) ↔ a ∈ add.map (·.1.text) :=
+    ((sortMembers_perm add).map (·.1.text)).mem_iff
+  have hkeep : m1.get? a = some w := by
+    have := replayDiffs_untouched a1 (a := a) (by rw [a2]; exact fun hm => hna (hperm.mp hm))
+    unfold SnapMap.get?; rw [this]; exact hw
+  exact List.mem_append_right _ (applyRemoves_reports rem h2 ha hkeep)
+
+/-! ## A registered hook can rebuild the member table from what it hears -/
+
+/-- All diffs sent to hook `k`, in order. -/
+def diffsTo (k : Addr) : List Out → List Diff
+  | [] => []
+  | o :: rest => if o.hook = k then o.diffs ++ diffsTo k rest else diffsTo k rest
+
+theorem diffsTo_append (k : Addr) (x y : List Out) : diffsTo k (x ++ y) = diffsTo k x ++ diffsTo k y := by
+  induction x with
+  | nil => rfl
+  | cons o rest ih =>
+    simp only [List.cons_append, diffsTo]
+    split
+    · rw [ih, List.append_assoc]
+    · exact ih
+
+theorem diffsTo_not_addressed (k : Addr) {out : List Out} (h : ∀ o ∈ out, o.hook ≠ k) : diffsTo k out = [] := by
+  induction out with
+  | nil => rfl
+  | cons o rest ih =>
+    simp only [diffsTo, h o (by simp), if_false]
+    exact ih (fun o' ho' => h o' (by simp [ho']))
+
+/-- One notification round to hooks among which `k` occurs exactly once. -/
+theorem diffsTo_round (k : Addr) (ds : List Diff) (hooks : List Addr) (hn : hooks.Nodup) (hk : k ∈ hooks) :
+    diffsTo k (hooks.map (hookMsg ds)) = ds := by
+  induction hooks with
+  | nil => cases hk
+  | cons t rest ih =>
+    rw [List.nodup_cons] at hn
+    simp only [List.map_cons, diffsTo, hookMsg]
+    by_cases e : t = k
+    · subst e
+      simp only [if_true]
+      have : diffsTo t (rest.map (hookMsg ds)) = [] := by
+        apply diffsTo_not_addressed
+        intro o ho
+        simp only [List.mem_map] at ho
+        obtain ⟨x, hx, rfl⟩ := ho
+        intro e; simp only [hookMsg] at e; subst e; exact hn.1 hx
+      rw [this, List.append_nil]
+    · simp only [e, if_false]
+      have := ih hn.2 (by simpa [Ne.symm e] using hk)
+      simpa [hookMsg] using this
+
+/-- Head of `outs`. -/
+theorem outs_cons (s : State) (op : Op) (ops : List Op) :
+    outs s (op :: ops) = outOf (execute s op.height op.sender op.msg) ++ outs (stepOp s op) ops := by
+  cases h : execute s op.height op.sender op.msg with
+  | ok r => obtain ⟨s', out⟩ := r; simp [outs, outOf, h]
+  | error e => simp [outs, outOf, h]
+
+/-- A call either succeeds or is rolled back silently. -/
+theorem stepOp_cases (s : State) (op : Op) :
+    (∃ s' out, execute s op.height op.sender op.msg = .ok (s', out) ∧ stepOp s op = s' ∧
+        outOf (execute s op.height op.sender op.msg) = out) ∨
+    (stepOp s op = s ∧ outOf (execute s op.height op.sender op.msg) = []) := by
+  cases h : execute s op.height op.sender op.msg with
+  | ok r => obtain ⟨s', out⟩ := r; exact Or.inl ⟨s', out, rfl, by simp [stepOp, step, h], by simp [outOf]⟩
+  | error e => exact Or.inr ⟨by simp [stepOp, step, h], by simp [outOf]⟩
+
+/-- One successful call: what it sends to a registered hook replays the member table before the call into
+the member table after it. -/
+theorem replica_execute {s s' : State} {h : Nat} {snd : Addr} {msg : Msg} {out : List Out} {k : Addr}
+    (he : execute s h snd msg = .ok (s', out)) (hn : s.hooks.Nodup) (hk : k ∈ s.hooks) :
+    replayDiffs s.members.cur (diffsTo k out) = some s'.members.cur := by
+  cases msg with
+  | updateMembers rem add =>
+    obtain ⟨diffs, hr, rfl⟩ := execute_updateMembers_ok.mp he
+    rw [diffsTo_round k diffs s.hooks hn hk]
+    exact updateMembers_replay hr
+  | updateAdmin new =>
+    rw [other_ops_silent he (by intro _ _ hc; cases hc), ((execute_frame he).1 _ rfl).2.1]; rfl
+  | addHook a =>
+    rw [other_ops_silent he (by intro _ _ hc; cases hc), ((execute_frame he).2.2.1 _ rfl).2.1]; rfl
+  | removeHook a =>
+    rw [other_ops_silent he (by intro _ _ hc; cases hc), ((execute_frame he).2.2.2 _ rfl).2.1]; rfl
+
+/-- `k` is registered at every point of the history (at the start and after each call). -/
+def StaysRegistered (k : Addr) (s : State) (ops : List Op) : Prop :=
+  ∀ n, n ≤ ops.length → k ∈ (run s (ops.take n)).hooks
+
+theorem staysRegistered_cons {k : Addr} {s : State} {op : Op} {rest : List Op}
+    (h : StaysRegistered k s (op :: rest)) : k ∈ s.hooks ∧ StaysRegistered k (stepOp s op) rest := by
+  refine ⟨by simpa using h 0 (by simp), ?_⟩
+  intro n hn
+  have := h (n + 1) (by simpa using hn)
+  simpa using this
+
+/-- **C14, hooks hear every change truthfully — end to end**: a hook `k` that is registered (once: every
+reachable state, `reachable_hooks_nodup`) and stays registered during a history can rebuild the member table
+from nothing but the messages it receives: replaying all diffs sent to it, in order, on the member table at
+the start — checking every `old` against its own replica — never hits a mismatch and ends with exactly the
+group's current member table.  So along whole histories (calls of any senders, failed calls, admin changes,
+other hooks coming and going, failed attempts to remove `k`) no membership change goes unreported, no
+reported change did not happen, and all reported weights are the true ones. -/
+theorem hook_replica_registered {s : State} {k : Addr} (hn : s.hooks.Nodup) (ops : List Op)
+    (hreg : StaysRegistered k s ops) :
+    replayDiffs s.members.cur (diffsTo k (outs s ops)) = some (run s ops).members.cur := by
+  induction ops generalizing s with
+  | nil => rfl
+  | cons op rest ih =>
+    obtain ⟨hk, hreg'⟩ := staysRegistered_cons hreg
+    have hn' : (stepOp s op).hooks.Nodup := by
+      have := run_hooks_nodup hn [op]; simpa using this
+    have i1 := ih hn' hreg'
+    rw [outs_cons, diffsTo_append, replayDiffs_append, run_cons]
+    rcases stepOp_cases s op with ⟨s', out, he, hs, ho⟩ | ⟨hs, ho⟩
+    · rw [ho, replica_execute he hn hk]
+      rw [hs] at i1 ⊢
+      exact i1
+    · rw [ho]
+      rw [hs] at i1 ⊢
+      exact i1
+
+/-- A registered hook stays registered as long as no `RemoveHook` names it. -/
+theorem staysRegistered_of_not_removed {s : State} {k : Addr} (hk : k ∈ s.hooks) (ops : List Op)
+    (hstay : ∀ op ∈ ops, ∀ a, op.msg = .removeHook a → a.text ≠ k) : StaysRegistered k s ops := by
+  induction ops generalizing s with
+  | nil => intro n _; simpa using hk
+  | cons op rest ih =>
+    have hk' : k ∈ (stepOp s op).hooks := by
+      rcases stepOp_cases s op with ⟨s', out, he, hs, _⟩ | ⟨hs, _⟩
+      · rw [hs]
+        have hf := execute_frame he
+        obtain ⟨oh, os, om⟩ := op
+        cases om with
+        | updateAdmin new => rw [(hf.1 _ rfl).1]; exact hk
+        | updateMembers rem add => rw [(hf.2.1 _ _ rfl).1]; exact hk
+        | addHook a =>
+          simp [execute, execAddHook] at he
+          obtain ⟨_, _, _, rfl, _⟩ := he
+          simp [hk]
+        | removeHook a =>
+          simp [execute, execRemoveHook] at he
+          obtain ⟨_, _, _, rfl, _⟩ := he
+          exact (List.mem_erase_of_ne (Ne.symm (hstay ⟨oh, os, .removeHook a⟩ (by simp) a rfl))).mpr hk
+      · rw [hs]; exact hk
+    have := ih hk' (fun o ho => hstay o (by simp [ho]))
+    intro n hn
+    cases n with
+    | zero => simpa using hk
+    | succ j => simpa using this j (by simpa using hn)
+
+/-- **`hook_replica`** in the form "nobody asks to remove `k`". -/
+theorem hook_replica {s : State} {k : Addr} (hn : s.hooks.Nodup) (hk : k ∈ s.hooks) (ops : List Op)
+    (hstay : ∀ op ∈ ops, ∀ a, op.msg = .removeHook a → a.text ≠ k) :
+    replayDiffs s.members.cur (diffsTo k (outs s ops)) = some (run s ops).members.cur :=
+  hook_replica_registered hn ops (staysRegistered_of_not_removed hk ops hstay)
+
+/-- … hence, over a whole history, the first diff a hook hears about an address carries its weight at the
+start and the last one its current weight (`replayDiffs_first_last` applied to `hook_replica`). -/
+theorem hook_hears_first_last {s : State} {k : Addr} (hn : s.hooks.Nodup) (ops : List Op)
+    (hreg : StaysRegistered k s ops) {pre post : List Diff} {d : Diff}
+    (hd : diffsTo k (outs s ops) = pre ++ d :: post) :
+    (d.key ∉ pre.map (·.key) → d.old = weight s d.key) ∧
+    (d.key ∉ post.map (·.key) → d.new = weight (run s ops) d.key) := by
+  have := hook_replica_registered hn ops hreg
+  rw [hd] at this
+  exact replayDiffs_first_last this
+
+/-! ## Authorisation over histories -/
+
+/-- **C14, a non-admin is powerless**: a call by anybody who is not the *current* admin — a stranger, a
+member, a hook, a former admin — changes nothing and notifies nobody. -/
+theorem non_admin_powerless {s : State} (op : Op) (hx : s.admin ≠ some op.sender) :
+    stepOp s op = s ∧ outOf (execute s op.height op.sender op.msg) = [] := by
+  rcases stepOp_cases s op with ⟨s', out, he, _, _⟩ | h
+  · exact absurd (execute_ok_admin he) hx
+  · exact h
+
+/-- **C14, authorisation over histories**: if a history changed anything (members, their snapshots, the
+total, the hook list or the admin), then it contains a call that changed the state and whose sender was the
+admin *at that moment*. -/
+theorem run_change_auth {s : State} (ops : List Op) (hc : run s ops ≠ s) :
+    ∃ pre op post, ops = pre ++ op :: post ∧ (run s pre).admin = some op.sender ∧
+      stepOp (run s pre) op ≠ run s pre := by
+  induction ops generalizing s with
+  | nil => exact absurd rfl hc
+  | cons op rest ih =>
+    by_cases hs : stepOp s op = s
+    · rw [run_cons, hs] at hc
+      obtain ⟨pre, op', post, e, ha, hne⟩ := ih hc
+      refine ⟨op :: pre, op', post, by rw [e]; rfl, ?_, ?_⟩
+      · rw [run_cons, hs]; exact ha
+      · rw [run_cons, hs]; exact hne
+    · exact ⟨[], op, rest, rfl, step_change_auth op hs, hs⟩
+
+/-- Histories in which the current admin never acts change nothing. -/
+theorem run_without_admin {s : State} (ops : List Op) (hno : ∀ op ∈ ops, s.admin ≠ some op.sender) :
+    run s ops = s ∧ outs s ops = [] := by
+  induction ops with
+  | nil => exact ⟨rfl, rfl⟩
+  | cons op rest ih =>
+    obtain ⟨h1, h2⟩ := non_admin_powerless op (hno op (by simp))
+    obtain ⟨i1, i2⟩ := ih (fun o ho => hno o (by simp [ho]))
+    rw [run_cons, outs_cons, h1, h2]
+    exact ⟨i1, i2⟩
+
+/-! ## Non-vacuity of the review-round theorems -/
+
+def outDiffs (r : Res (State × List Diff)) : List Diff := match r with | .ok (_, d) => d | .error _ => []
+
+example : outDiffs (updateMembers exHooked 11 "adm" [⟨true, "carol"⟩, ⟨true, "dave"⟩, ⟨true, "bob"⟩]
+    [(⟨true, "carol"⟩, 1), (⟨true, "alice"⟩, 5)]) = exDiffs := by decide
+
+/-- `diffs_first_last` / `removed_reported` on `exUpdate`: bob (removed, not added) is reported as
+`(bob, 3, none)`; carol is named twice — the first entry has her old weight (none), the last her new one (none) -/
+example : ∃ s', updateMembers exHooked 11 "adm" [⟨true, "carol"⟩, ⟨true, "dave"⟩, ⟨true, "bob"⟩]
+      [(⟨true, "carol"⟩, 1), (⟨true, "alice"⟩, 5)] = .ok (s', exDiffs) ∧
+    (⟨"bob", some 3, none⟩ : Diff) ∈ exDiffs ∧ weight s' "bob" = none := by
+  obtain ⟨s', out, he⟩ : ∃ s' out, execute exHooked 11 "adm" exUpdate = .ok (s', out) := ⟨_, _, rfl⟩
+  obtain ⟨diffs, hr, _⟩ := execute_updateMembers_ok.mp he
+  have hd : diffs = exDiffs := by
+    have : outDiffs (updateMembers exHooked 11 "adm" [⟨true, "carol"⟩, ⟨true, "dave"⟩, ⟨true, "bob"⟩]
+      [(⟨true, "carol"⟩, 1), (⟨true, "alice"⟩, 5)]) = diffs := by rw [hr]; rfl
+    rw [← this]; decide
+  subst hd
+  refine ⟨s', hr, removed_reported hr (a := "bob") (by decide) (by decide) (w := 3) (by decide), ?_⟩
+  have := (diffs_first_last hr (pre := [⟨"alice", some 5, some 5⟩, ⟨"carol", none, some 1⟩, ⟨"carol", some 1, none⟩])
+    (post := []) (d := ⟨"bob", some 3, none⟩) rfl).2 (by decide)
+  exact this.symm
+
+/-- two hooks; h1 is removed and re-added in between, h2 stays (a stranger's attempt to remove it fails) -/
+def exHistory : List Op :=
+  [⟨11, "adm", exUpdate⟩, ⟨11, "adm", .removeHook ⟨true, "h1"⟩⟩, ⟨12, "bob", .removeHook ⟨true, "h2"⟩⟩,
+   ⟨12, "adm", .updateMembers [⟨true, "alice"⟩] [(⟨true, "erin"⟩, 7)]⟩, ⟨13, "adm", .addHook ⟨true, "h1"⟩⟩,
+   ⟨13, "adm", .updateMembers [] [(⟨true, "erin"⟩, 8)]⟩]
+
+example : (run exHooked exHistory).members.cur = [("erin", 8)] ∧ (run exHooked exHistory).hooks = ["h2", "h1"] := by
+  decide
+example : diffsTo "h2" (outs exHooked exHistory)
+    = exDiffs ++ [⟨"erin", none, some 7⟩, ⟨"alice", some 5, none⟩, ⟨"erin", some 7, some 8⟩] := by decide
+/-- h2 hears everything and rebuilds `[("erin", 8)]` -/
+example : replayDiffs exHooked.members.cur (diffsTo "h2" (outs exHooked exHistory))
+    = some (run exHooked exHistory).members.cur :=
+  hook_replica_registered (k := "h2") (by decide) exHistory (by unfold StaysRegistered; decide)
+/-- h1 missed the second update: its replica fails on the first diff it hears after re-registration
+(`erin: 7 → 8` while it never heard of erin) — staying registered is necessary -/
+example : replayDiffs exHooked.members.cur (diffsTo "h1" (outs exHooked exHistory)) = none := by decide
+
+/-- a replaced admin retries everything: nothing changes, nobody is notified -/
+def exHandedOver : State := step exHooked 12 "adm" (.updateAdmin (some ⟨true, "newadm"⟩))
+def exRetry : List Op :=
+  [⟨13, "adm", exUpdate⟩, ⟨13, "adm", .updateAdmin (some ⟨true, "adm"⟩)⟩, ⟨13, "adm", .removeHook ⟨true, "h1"⟩⟩,
+   ⟨14, "bob", .addHook ⟨true, "h3"⟩⟩]
+example : exHandedOver.admin = some "newadm" := by decide
+example : run exHandedOver exRetry = exHandedOver ∧ outs exHandedOver exRetry = [] :=
+  run_without_admin exRetry (by decide)
+/-- … while the new admin's call does change the state (`run_change_auth` is not vacuous) -/
+example : ∃ pre op post, exRetry ++ [⟨14, "newadm", exUpdate⟩] = pre ++ op :: post ∧
+    (run exHandedOver pre).admin = some op.sender ∧ stepOp (run exHandedOver pre) op ≠ run exHandedOver pre :=
+  run_change_auth _ (by
+    intro h
+    have : (run exHandedOver (exRetry ++ [⟨14, "newadm", exUpdate⟩])).members.cur = exHandedOver.members.cur := by rw [h]
+    revert this; decide)
+
 end CwPlus.Props.C14
